@@ -288,6 +288,10 @@ def bounded(tier, seed):
     for _ in range(31):
         deep = (deep,)
     fixed_cases += [wide, tuple(['s'] * 253), [tuple([1, 's', 2.5, True] * 40)], {'k': tuple(range(200))}, deep]
+    # numbers of different Python types in one container: whatever they travel as, every one of them comes back EQUAL (a 64-bit integer
+    # beyond 2^53 has no double)
+    fixed_cases += [[marshal.Int64(2**53 + 1), 0.5], [0.5, marshal.UInt64(2**64 - 1), 7], {'big': marshal.Int64(-2**63 + 1), 'ratio': 0.25}, [1, 2.5], [2.5, 1],
+                    [marshal.UInt32(4000000000), 1.5, marshal.Int64(2**62 + 1)]]
     # one container object reachable twice inside a value is an ordinary finite value
     row, pair, ent = [1, 2, 3], (1, 'a'), {'k': [1]}
     fixed_cases += [(row, row), [row, row], {'a': row, 'b': row}, (pair, pair), [pair, pair], [ent, ent], (row, [row, row]), {'x': (row, row)}]
